@@ -20,18 +20,19 @@ use crate::dic::word_id::WordId;
 #[derive(Copy, Clone, Eq, PartialEq, Debug)]
 pub struct NodeIdx {
     end: u16,
-    index: u16,
+    // more than u16::MAX nodes can end at one boundary (e.g. grouped OOV candidates of a long run)
+    index: u32,
 }
 
 impl NodeIdx {
     pub fn empty() -> NodeIdx {
         NodeIdx {
             end: u16::MAX,
-            index: u16::MAX,
+            index: u32::MAX,
         }
     }
 
-    pub fn new(end: u16, index: u16) -> NodeIdx {
+    pub fn new(end: u16, index: u32) -> NodeIdx {
         NodeIdx { end, index }
     }
 
@@ -39,7 +40,7 @@ impl NodeIdx {
         self.end
     }
 
-    pub fn index(&self) -> u16 {
+    pub fn index(&self) -> u32 {
         self.index
     }
 }
